@@ -15,7 +15,7 @@ import contextlib
 
 import z3
 
-from engine import symex, codec, c11env
+from engine import symex, codec, c02env, c11env
 from engine.c11env import (SLoop, World, SymMap, ref_frame, frame_code, bytes_equal, bv, le_terms, zb, z_and, z_or, z_not,
                            z_ite, z_iff, w_eq, w_nonzero, ref_select, terms, ref_plain, ref_obfuscate)
 
@@ -127,6 +127,9 @@ def port_usable(p):
 # H1: create_peer_connection
 # ----------------------------------------------------------------------------------------------------------------------
 
+OURS = object()       # stands for "the ticket the server was given in our ConnectToPeer request"
+
+
 class Event:
     def __init__(self, j, offset, kind, ticket, obf_port):
         self.j, self.offset, self.kind, self.ticket, self.obf_port = j, offset, kind, ticket, obf_port
@@ -135,16 +138,16 @@ class Event:
         self.key = None
 
 
-def h_connect(c, mode, direct, indirect, addr='given', typ='P', decoy=False, cancel=None, k_lo=0, k_hi=0):
+def h_connect(c, mode, direct, indirect, addr='given', typ='P', decoy=False, cancel=None, k_lo=0, k_hi=0, pin=False):
     loop = SLoop()
     try:
         with environment(c, loop) as (g, wr, tap):
-            _connect(c, loop, g, wr, tap, mode, direct, indirect, addr, typ, decoy, cancel, k_lo, k_hi)
+            _connect(c, loop, g, wr, tap, mode, direct, indirect, addr, typ, decoy, cancel, k_lo, k_hi, pin)
     finally:
         loop.cleanup()
 
 
-def _connect(c, loop, g, wr, tap, mode, direct, indirect, addr, typ, decoy, cancel, k_lo, k_hi):
+def _connect(c, loop, g, wr, tap, mode, direct, indirect, addr, typ, decoy, cancel, k_lo, k_hi, pin):
     sig = [mode, direct, indirect]
     d_outcome, d_delay, d_drain = DIRECT[direct]
     script = INDIRECT[indirect]
@@ -152,9 +155,7 @@ def _connect(c, loop, g, wr, tap, mode, direct, indirect, addr, typ, decoy, canc
 
     # ---- data ---------------------------------------------------------------------------------------------------------
     prefer = bool(c.fresh_bool('prefer_obfuscated')) if addr == 'server' else False
-    pos = g.word('ticket_generator_position', 32)
-    c.assume(pos <= 2 ** 32 - 2)
-    ticket_ref = pos + 1 if isinstance(pos, int) else z3.simplify(bv(pos, 32) + 1)      # what the generator must hand out
+    pos = g.word('ticket_generator_position', 32)      # makes the request's ticket an arbitrary 32-bit value
 
     if addr == 'server':
         shape = c.pick(['full', 'short'], 'address_reply_shape')
@@ -170,13 +171,18 @@ def _connect(c, loop, g, wr, tap, mode, direct, indirect, addr, typ, decoy, canc
 
     events = []
     for j, (off, kind, tk) in enumerate(script):
-        t = g.word(f'event{j}.ticket', 32) if tk == 'sym' else (pos + 1)
+        t = g.word(f'event{j}.ticket', 32) if tk == 'sym' else OURS
         obf_port = bool(c.choose(2, f'event{j}.listening_port')) if kind == 'ppf' else False
         ev = Event(j, off, kind, t, obf_port)
         if obf_port:
             ev.key = g.raw(f'event{j}.key', 4)
         events.append(ev)
     g.commit()
+    if pin:
+        # cancellation scenarios: the data stays symbolic but is constrained to the case the scenario name says (usable
+        # port, every scripted notice carries our ticket); the data-dependent cases are the business of the other jobs
+        if addr == 'given':
+            c.assume(given['port'] >= 1)
 
     # ---- reference: does a path work? ---------------------------------------------------------------------------
     if addr == 'server':
@@ -200,9 +206,9 @@ def _connect(c, loop, g, wr, tap, mode, direct, indirect, addr, typ, decoy, canc
         valid = z_and(z_not(ip_zero), z_or(w_nonzero(clear), w_nonzero(obf)))
         target_port, use_obf = ref_select(clear, obf, prefer)
         target_ip = octs
-        # losing the server connection (the ConnectToPeer write fails in the race before the address arrives) makes the
-        # address unobtainable
-        address_arrives = not (mode == 'race' and indirect in SERVER_FAULT)
+        # losing the server connection (in the race the ConnectToPeer write fails, which closes the server connection, before
+        # the address has arrived) makes the address unobtainable
+        address_arrives = not (mode == 'race' and indirect == 'send_fails')
     else:
         valid, address_arrives = True, True
         target_port, use_obf = given['port'], given['obfuscate']
@@ -210,12 +216,27 @@ def _connect(c, loop, g, wr, tap, mode, direct, indirect, addr, typ, decoy, canc
     target_port32 = target_port if isinstance(target_port, int) else bv(target_port, 32)
     dir_ok = z_and(address_arrives, valid, port_usable(target_port32), direct in DIRECT_OK)
 
-    ind_ok, alive = False, indirect not in SERVER_FAULT
-    for ev in events:
-        m = w_eq(ev.ticket, ticket_ref)
-        if ev.kind == 'ppf':
-            ind_ok = z_or(ind_ok, z_and(alive, m))
-        alive = z_and(alive, z_not(m))
+    def wire_ticket():
+        """OUR ticket = the one the server was given in ConnectToPeer (bytes 8..11 of that frame, little endian); None when the
+        server never got one.  A well-behaved peer / server echoes exactly this value."""
+        if not S['ctp']:
+            return None
+        return c02env.le_value(terms(S['ctp'][0])[8:12])
+
+    def matches_ours(ev):
+        return True if ev.ticket is OURS else w_eq(ev.ticket, wire_ticket())
+
+    def indirect_works():
+        """reference fold over the scripted notices: the first notice that carries our ticket decides"""
+        if wire_ticket() is None:
+            return False
+        ok, alive = False, True
+        for ev in events:
+            m = matches_ours(ev)
+            if ev.kind == 'ppf':
+                ok = z_or(ok, z_and(alive, m))
+            alive = z_and(alive, z_not(m))
+        return ok
 
     # ---- world ------------------------------------------------------------------------------------------------------
     world = World(c, loop, wr, mode, prefer)
@@ -240,11 +261,14 @@ def _connect(c, loop, g, wr, tap, mode, direct, indirect, addr, typ, decoy, canc
 
     def fire(ev):
         ev.fired_at = loop.time()
+        if pin:
+            c.assume(matches_ours(ev))
+        tk = wire_ticket() if ev.ticket is OURS else ev.ticket
         if ev.kind == 'cc':
-            world.server_reader.feed_data(ref_frame('CannotConnect.Response', ticket=ev.ticket))
+            world.server_reader.feed_data(ref_frame('CannotConnect.Response', ticket=tk))
             return
         ev.reader, ev.writer, ev.task = world.incoming(ev.obf_port, peer=(f'7.7.7.{ev.j}', 7000 + ev.j))
-        plain = ref_frame('PeerPierceFirewall.Request', ticket=ev.ticket)
+        plain = ref_frame('PeerPierceFirewall.Request', ticket=tk)
         ev.reader.feed_data(ref_obfuscate(plain, terms(ev.key)) if ev.obf_port else plain)
 
     def address_reply(d):
@@ -303,10 +327,11 @@ def _connect(c, loop, g, wr, tap, mode, direct, indirect, addr, typ, decoy, canc
             i_ph = 'waiting' if len(net._expected_connection_futures) and not any(
                 f.done() for f in net._expected_connection_futures.values()) else 'over'
         if not a:
-            d_ph = ('address' if S['gpa'] else 'not_started') if addr == 'server' else 'not_started'
-        elif a[0].t_end is None and a[0].outcome != 'badport':
+            d_ph = 'getting_address' if any(f.message_class.__qualname__ == 'GetPeerAddress.Response'
+                                            for f in net._expected_response_futures) else ('over' if S['gpa'] else 'not_started')
+        elif a[0].t_end is None:
             d_ph = 'connecting'
-        elif a[0].writer is not None and not a[0].writer.closed and not any(cn._writer is a[0].writer for cn, _ in world.inits):
+        elif a[0].writer is not None and a[0].writer._hanging:
             d_ph = 'sending_init'
         else:
             d_ph = 'over'
@@ -346,9 +371,23 @@ def _connect(c, loop, g, wr, tap, mode, direct, indirect, addr, typ, decoy, canc
             out.append(q)
         return out
 
+    def situation():
+        """finite tag of how the request ended, for the signature of the leaves-nothing-behind obligations (the property does not
+        depend on it; it only groups the failing scenarios by cause)"""
+        if st['cancelled_at'] is not None:
+            return [mode, 'cancelled_while'] + st['phase']
+        returned = st['result'][0] if st['result'] else None
+        if returned is None:
+            how = 'raised' if task.done() else 'pending'
+        else:
+            how = 'returned_direct' if any(a.writer is returned._writer for a in wr.attempts[1:]) else 'returned_indirect'
+        loser = phase()
+        return [mode, how, 'direct_' + loser[0], 'indirect_' + (('send_' + SERVER_FAULT[indirect]) if indirect in SERVER_FAULT and
+                                                              any(frame_code(d) == 18 for d in world.server_writer.written)
+                                                              else loser[1])]
+
     def observe_return():
         st['observed'] = True
-        csig = sig if st['cancelled_at'] is None else [mode, 'cancel'] + st['phase']
         c.reach('request_ended')
         if task.cancelled():
             returned, exc = None, asyncio.CancelledError()
@@ -357,11 +396,12 @@ def _connect(c, loop, g, wr, tap, mode, direct, indirect, addr, typ, decoy, canc
         else:
             returned, exc = task.result(), None
         st['result'] = (returned, exc)
+        csig = situation()
         info = {'t': loop.time(), 'outcome': 'returned' if exc is None else repr(exc)}
         if st['cancelled_at'] is None:
             # ---- clause 1: returns iff a path works, raises PeerConnectionError otherwise --------------------------
             if tie_free:
-                works = z_or(dir_ok, ind_ok)
+                works = z_or(dir_ok, indirect_works())
                 c.check(works if exc is None else z_not(works), 'returns_iff_a_path_works', sig=sig, info=info)
             if exc is not None:
                 c.check(isinstance(exc, PeerConnectionError), 'failure_is_peer_connection_error', sig=sig, info=info)
@@ -382,7 +422,7 @@ def _connect(c, loop, g, wr, tap, mode, direct, indirect, addr, typ, decoy, canc
             elif inc:
                 c.reach('returned_indirect')
                 if st['cancelled_at'] is None:
-                    c.check(w_eq(inc[0].ticket, ticket_ref), 'returned_connection_is_a_working_path', sig=sig + ['indirect'])
+                    c.check(matches_ours(inc[0]), 'returned_connection_is_a_working_path', sig=sig + ['indirect'])
                 came_obf = inc[0].obf_port
             else:
                 came_obf = False
@@ -444,7 +484,7 @@ def _connect(c, loop, g, wr, tap, mode, direct, indirect, addr, typ, decoy, canc
                 return
             st['clean_at_return'] = observe_return()
         elif st['cancelled_at'] is not None and not st['observed']:
-            c.check(False, 'cancelled_request_ends_cancelled', sig=[mode, 'cancel'] + st['phase'],
+            c.check(False, 'cancelled_request_ends_cancelled', sig=situation(),
                     info='request still pending when the loop went idle after the cancellation')
             st['observed'], st['clean_at_return'] = True, False
         elif st['observed'] and st.get('late') is None:
@@ -456,8 +496,9 @@ def _connect(c, loop, g, wr, tap, mode, direct, indirect, addr, typ, decoy, canc
     harness_errors(world, tap)
 
     # ---- the end: everything scripted has happened --------------------------------------------------------------------
-    csig = sig if st['cancelled_at'] is None else [mode, 'cancel'] + st['phase']
+    csig = situation()
     c.reach('scenario_end')
+    c.note('loop steps', st['steps'], 'idle instants', st['idles'], 'end', loop.time())
     if not c.check(task.done(), 'request_terminates', sig=csig,
                    info={'direct_phase_indirect_phase': phase(), 'waiters': waiters(), 't': loop.time()}):
         return
@@ -479,16 +520,19 @@ def _connect(c, loop, g, wr, tap, mode, direct, indirect, addr, typ, decoy, canc
         c.check(z_and(valid, host_ok, port_ok), 'direct_attempt_goes_to_selected_address', sig=sig + [addr])
         for data in (a.writer.written[:1] if a.writer is not None else []):
             c.reach('peer_init_sent')
-            plain = ref_frame('PeerInit.Request', username=ME, typ=typ, ticket=ticket_ref)
+            plain = ref_frame('PeerInit.Request', username=ME, typ=typ, ticket=0)
             n = len(terms(data))
             wire_obf = n == len(plain) + 4
             body = ref_plain(terms(data), True) if wire_obf else terms(data)
-            c.check(z_and(n in (len(plain), len(plain) + 4), z_iff(wire_obf, use_obf), bytes_equal(body, plain)),
-                    'peer_init_carries_name_type_ticket', sig=sig + [addr])
+            # (the ticket field of PeerInit is free: the protocol gives it no meaning on a direct connection)
+            c.check(z_and(n in (len(plain), len(plain) + 4), z_iff(wire_obf, use_obf), bytes_equal(body[:-4], plain[:-4])),
+                    'peer_init_carries_name_and_type', sig=sig + [addr])
     for data in S['ctp'][:1]:
         c.reach('connect_to_peer_sent')
-        c.check(bytes_equal(data, ref_frame('ConnectToPeer.Request', ticket=ticket_ref, username=PEER, typ=typ)),
-                'connect_to_peer_carries_ticket_name_type', sig=sig)
+        ref = ref_frame('ConnectToPeer.Request', ticket=0, username=PEER, typ=typ)
+        got = list(terms(data))
+        c.check(z_and(len(got) == len(ref), bytes_equal(got[:8], ref[:8]), bytes_equal(got[12:], ref[12:])),
+                'connect_to_peer_carries_name_and_type', sig=sig)
     c.check(not S['cc_sent'], 'no_cannot_connect_report_for_own_request', sig=sig)
 
 
@@ -645,20 +689,52 @@ META = {
 
 def jobs(tier):
     out = []
+    q = tier == 'quick'
 
     def job(h, fn, req, **p):
         out.append({'harness': h, 'fn': fn, 'params': p, 'requires': req})
     job('select_port', h_select_port, ['selected'])
     for o in BACK:
         for shape in ('full', 'short'):
-            job('connect_back', h_connect_back, ['connect_back_end'], outcome=o, shape=shape)
-    directs = ['fast', 'slow', 'refused', 'hang', 'init_fail']
-    indirects = ['pierce_fast', 'pierce_slow', 'cannot_fast', 'cannot_slow', 'silence', 'send_fails']
+            job('connect_back', h_connect_back, ['connect_back_end', 'pierced' if o in ('ok', 'ok_slow') else 'reported'], outcome=o, shape=shape)
+    directs = ['fast', 'slow', 'refused', 'hang', 'init_fail'] + ([] if q else ['tie', 'refused_slow', 'init_hang'])
+    indirects = ['pierce_fast', 'pierce_slow', 'cannot_fast', 'cannot_slow', 'silence', 'send_fails'] + (
+        [] if q else ['send_hangs', 'stranger_then_pierce', 'pierce_then_cannot', 'pierce_at_timeout'])
     typs = ['P', 'F', 'D']
+    req = ['request_started', 'scenario_end', 'request_ended']
     n = 0
+    # (1) every outcome pair in both modes, address given by the caller (symbolic ip / port / obfuscate flag)
     for mode in ('fallback', 'race'):
         for d in directs:
             for i in indirects:
-                job('connect', h_connect, ['request_started', 'scenario_end'], mode=mode, direct=d, indirect=i, addr='given', typ=typs[n % 3])
+                for typ in ([typs[n % 3]] if q else typs):
+                    job('connect', h_connect, req, mode=mode, direct=d, indirect=i, addr='given', typ=typ)
+                n += 1
+    # (2) address from the server (symbolic GetPeerAddress answer, optionally preceded by an answer for a symbolic other user)
+    sd = ['fast', 'refused', 'hang'] if q else directs
+    si = ['pierce_fast', 'cannot_fast', 'silence', 'send_fails'] if q else indirects
+    for mode in ('fallback', 'race'):
+        for d in sd:
+            for i in si:
+                for decoy in ([bool(n % 2)] if q else [False, True]):
+                    job('connect', h_connect, req[:2] if (mode, i) == ('race', 'send_fails') else req, mode=mode, direct=d, indirect=i, addr='server', typ=typs[n % 3], decoy=decoy)
+                n += 1
+    # (3) cancellation of the request: at every instant at which the loop goes idle ...
+    creq = ['request_started', 'cancel_injected', 'scenario_end']
+    for mode in ('fallback', 'race'):
+        for d in directs:
+            for i in indirects:
+                job('connect', h_connect, creq, mode=mode, direct=d, indirect=i, addr='given', typ=typs[n % 3], cancel='idle', k_lo=0, k_hi=16,
+                    pin=True)
+                n += 1
+    # ... and before every single loop step
+    cd = ['fast', 'hang', 'init_hang'] if q else directs + ['init_hang'] * ('init_hang' not in directs)
+    ci = ['pierce_fast', 'silence'] if q else indirects
+    for mode in ('fallback', 'race'):
+        for d in cd:
+            for i in ci:
+                for a in (['given'] if q else ['given', 'server']):
+                    job('connect', h_connect, creq, mode=mode, direct=d, indirect=i, addr=a, typ=typs[n % 3], cancel='step', k_lo=0,
+                        k_hi=48, pin=True)
                 n += 1
     return out
